@@ -6,8 +6,8 @@ ID = 'C14'
 UNITS = ['validators', 'adjust_intervals', 'io_wrappers', 'event_metrics', 'melody_metrics', 'melody_resample', 'transcription_scores', 'multipitch_metrics', 'seg_cluster_q', 'hier_measures', 'chord_evaluate', 'key_score', 'tempo_detection', 'alignment_scores', 'pattern_scores', 'beat_q']
 TRANSLATORS = []
 NOT_COVERED = ('exceptions raised inside NumPy/SciPy for values the models treat as ordinary (overflow, NaN inputs, object dtypes); metrics '
-               'without a value model are covered at the entry-point level by the oracle only (sampling); matcher fuel: "returns a result" '
-               'includes the never-observed out-of-fuel outcome of the model')
+               'without a value model are covered at the entry-point level by the oracle only (sampling); the matcher model is total '
+               '(bipartite_match_total: it never runs out of its fuel)')
 ASSUMPTIONS = ['shape descriptor arr = (ndim, shape, data) stands for NumPy arrays in the validator models']
 
 
